@@ -8,6 +8,6 @@ import FontVerif.Lemmas.ReadIter
 set_option linter.unusedVariables false
 set_option linter.unusedSimpArgs false
 namespace FontVerif.C01HandBitmap
-open FontVerif FontVerif.ReadIter FontVerif.HandRead FontVerif.HandBitmap
+open FontVerif FontVerif.HandRead FontVerif.HandBitmap
 
 end FontVerif.C01HandBitmap
